@@ -124,3 +124,47 @@ func VP_C18_print_roundtrip() {
 		zzvp.Assert(vpProblemCost(pb2, a) == wantCost, "the re-read problem gives a model a different cost")
 	}
 }
+
+// VP_C18_solver_print_skeleton: Solver.PBString after a Solve that learned
+// clauses (CNF skeletons with symbolic signs) re-read by ParseOPB.
+func VP_C18_solver_print_skeleton() {
+	zzvp.IntMode(true)
+	sk := vpCDCLSkeletons[zzvp.Choose("skeleton", zzvp.Param("nskel", len(vpCDCLSkeletons)))]
+	maxSym := zzvp.Param("maxsigns", 8)
+	n, cnt := 0, 0
+	var cnf, orig [][]int
+	for _, c := range sk {
+		a, b := make([]int, len(c)), make([]int, len(c))
+		for i, l := range c {
+			if v := vpAbs(l); v > n {
+				n = v
+			}
+			x := l
+			if cnt < maxSym {
+				x = zzvp.Ite(zzvp.Bool("flip"), -l, l)
+				cnt++
+			}
+			a[i], b[i] = x, x
+		}
+		cnf, orig = append(cnf, a), append(orig, b)
+	}
+	s := New(ParseSliceNb(cnf, n))
+	vpSteer(s)
+	if s.Solve() != Sat {
+		zzvp.Reach("unsat")
+		return // a refuted solver has nothing meaningful to print
+	}
+	if s.Stats.NbLearned > 0 {
+		zzvp.Reach("learned")
+	}
+	text := s.PBString()
+	pb2, err := ParseOPB(strings.NewReader(text))
+	zzvp.Obs("text", text)
+	zzvp.Assert(err == nil, "the printed solver state is rejected by ParseOPB")
+	if err != nil {
+		return
+	}
+	a := zzvp.Int("a", 0, (1<<uint(n))-1)
+	zzvp.Assert(zzvp.Eqv(vpProblemHolds(pb2, a), vpCNFHolds(orig, a)), "the re-read solver state does not have the models of the problem")
+	zzvp.Reach("solver-opb-after-solve")
+}
